@@ -50,9 +50,17 @@ Section AncestryKeys.
         exfalso. apply H. apply assoc_none_keys. exact n. }
       rewrite (succ_keys g Hg) in Hk. apply in_map_iff in Hk. destruct Hk as [d [E I]]. exists d. split; assumption.
   Qed.
+  (* exactly one entry per deme: the keys of both maps are duplicate-free *)
+  Theorem views_keys_nodup g :
+    AncOK g -> NoDup (map fst (predecessors g)) /\ NoDup (map fst (successors g)).
+  Proof.
+    intros Hg. rewrite (pred_keys g Hg), (succ_keys g Hg).
+    split; exact (ab_nodup [] (g_demes g) (ak_order g Hg)).
+  Qed.
 End AncestryKeys.
 
 Print Assumptions pred_keys.
 Print Assumptions succ_keys.
 Print Assumptions views_entry_for_every_deme.
 Print Assumptions views_no_foreign_entry.
+Print Assumptions views_keys_nodup.
